@@ -146,12 +146,21 @@ def project(s1, s2, p, delta=0.0):
 
 
 def box_around_point(p, dist):
+    """Box (lat_b, lon_l, lat_t, lon_r) that encloses all points within dist meters of p."""
     lat, lon = p
+    if math.isinf(dist):
+        return -math.inf, -math.inf, math.inf, math.inf
     latr, lonr = radians(lat), radians(lon)
-    # diag_dist = sqrt(2 * dist ** 2)
-    diag_dist = dist
-    lat_t, lon_r = destination_radians(latr, lonr, radians(45), diag_dist)
-    lat_b, lon_l = destination_radians(latr, lonr, radians(225), diag_dist)
+    # Enclose the spherical cap with radius dist around p: dist meters to the north and to the
+    # south and, in longitude, up to the meridians that are tangent to the cap.
+    d = dist / earth_radius
+    if fabs(latr) + d >= math.pi / 2:
+        # The cap contains a pole
+        dlon = math.pi
+    else:
+        dlon = asin(min(1.0, sin(d) / cos(latr)))
+    lat_t, lon_r = latr + d, lonr + dlon
+    lat_b, lon_l = latr - d, lonr - dlon
     lat_t, lon_r = degrees(lat_t), degrees(lon_r)
     lat_b, lon_l = degrees(lat_b), degrees(lon_l)
     return lat_b, lon_l, lat_t, lon_r
